@@ -907,7 +907,9 @@ pub fn parse_query(iter: &mut Iter<'_>) -> Query {
                     let mut rest = iter.clone();
                     rest.next();
                     match rest.peek() {
-                        Some(Token::Eof) => Conversion::Degree(deg),
+                        Some(Token::Eof) | Some(Token::Newline) | Some(Token::Comment(_)) => {
+                            Conversion::Degree(deg)
+                        }
                         _ => Conversion::Expr(parse_eq(iter)),
                     }
                 }
